@@ -196,3 +196,25 @@ def interrupted_call(fn, at, suffixes=("permuta/",)):
         return "interrupted", str(e)
     finally:
         sys.settrace(old)
+
+
+def digit_twins(rnd, n, structured=False):
+    """Two different permutations of length n >= 11 whose entries, written in decimal one after the other, give the same
+    string: ... v ... 1 d ...  and  ... 1 d ... v ...  with v = 10 + d.  (Text forms and memo keys made by joining the
+    entries cannot tell them apart; the library must.)  structured: the other entries in increasing or decreasing order."""
+    v = rnd.choice([x for x in range(10, n) if x - 10 != 1])
+    d = v - 10
+    rest = [x for x in range(n) if x not in (v, 1, d)]
+    if structured:
+        if rnd.random() < 0.5:
+            rest.reverse()
+        i, j = rnd.choice([(0, len(rest)), (0, len(rest)), (0, rnd.randint(0, len(rest))), (rnd.randint(0, len(rest)), len(rest))])
+        i, j = min(i, j), max(i, j)
+    else:
+        rnd.shuffle(rest)
+        i, j = sorted((rnd.randint(0, len(rest)), rnd.randint(0, len(rest))))
+    A, B, C = rest[:i], rest[i:j], rest[j:]
+    a = tuple(A + [v] + B + [1, d] + C)
+    b = tuple(A + [1, d] + B + [v] + C)
+    assert "".join(map(str, a)) == "".join(map(str, b)) and a != b and sorted(a) == list(range(n))
+    return a, b
